@@ -128,7 +128,21 @@ func (e *Engine) instrMods(in ssa.Instruction, ms *ModSet, visiting map[*ssa.Fun
 	case *ssa.Go:
 		// thread-modular: the spawned goroutine's effects are not part of this function's frame
 	case *ssa.Send, *ssa.Select:
-		ms.heaps["gh:$chan"] = true
+		// ownership transfer on send: object-attached ghost ledgers of the sent object become unknown
+		sends := true
+		if sel, ok := in.(*ssa.Select); ok {
+			sends = false
+			for _, st := range sel.States {
+				if st.Dir == types.SendOnly {
+					sends = true
+				}
+			}
+		}
+		if sends {
+			for _, gn := range e.zeroGhosts() {
+				ms.heaps["gh:"+gn] = true
+			}
+		}
 	}
 }
 
@@ -159,6 +173,8 @@ func (e *Engine) callMods(c *ssa.CallCommon, ms *ModSet, visiting map[*ssa.Funct
 		case "delete":
 			h, v, l := mapIDs(c.Args[0].Type())
 			ms.heaps[h], ms.heaps[v], ms.heaps[l] = true, true, true
+		case "close":
+			ms.heaps["gh:closedch"] = true
 		}
 		return
 	}
@@ -173,6 +189,10 @@ func (e *Engine) callMods(c *ssa.CallCommon, ms *ModSet, visiting map[*ssa.Funct
 		if mc := singleClosure(c.Value); mc != nil {
 			fn = mc.Fn.(*ssa.Function)
 		}
+	}
+	if fn == nil && typeKey(c.Value.Type()) == "context.CancelFunc" {
+		ms.heaps["gh:cancelled"] = true
+		return
 	}
 	if fn == nil {
 		ms.all = true
@@ -225,6 +245,7 @@ func (e *Engine) modset(fn *ssa.Function, visiting map[*ssa.Function]bool) *ModS
 	}
 	visiting[fn] = true
 	ms := newModSet()
+	e.hookMods(fn, ms)
 	for _, b := range fn.Blocks {
 		for _, in := range b.Instrs {
 			e.instrMods(in, ms, visiting)
@@ -252,6 +273,7 @@ func (e *Engine) modset(fn *ssa.Function, visiting map[*ssa.Function]bool) *ModS
 
 func (e *Engine) loopModSet(fn *ssa.Function, li *loopInfo) *ModSet {
 	ms := newModSet()
+	e.hookMods(fn, ms)
 	for b := range li.blocks {
 		for _, in := range b.Instrs {
 			e.instrMods(in, ms, map[*ssa.Function]bool{})
@@ -472,6 +494,14 @@ func (x *Exec) callFuncValue(st *State, fr *frame, fv Val, args []Val, c *ssa.Ca
 			return x.applyContract(st, fr, ct, c.Signature(), nil, append([]Val{fv}, args...), pos, typeKey(n))
 		}
 	}
+	if typeKey(c.Value.Type()) == "context.CancelFunc" {
+		// calling the cancel function of a context cancels that context (ghost: cancels(fn) = context identity)
+		x.obligeAt(st, fr, "nil-func", pos, "cancel", "(not (= "+st.term(fv)+" 0))")
+		cx := st.ghostRead(st.ghost("cancels"), st.term(fv))
+		st.ghostWrite(st.ghost("cancelled"), cx, "true")
+		x.event(st, "cancel", cx)
+		return one(st, Val{})
+	}
 	x.obligeAt(st, fr, "nil-func", pos, "", "(not (= "+st.term(fv)+" 0))")
 	x.e.notes["call through function value of type "+typeKey(c.Value.Type())+" without contract: arbitrary result, arbitrary heap effect"] = true
 	st.havocAll()
@@ -647,7 +677,7 @@ func (x *Exec) doInvoke(st *State, fr *frame, c *ssa.CallCommon, recv Val, args 
 			}
 		}
 	}
-	if ct := e.ifaceContracts[iname]; ct != nil {
+	if ct := e.ifaceContracts[iname]; ct != nil && !ct.Dispatch {
 		return x.applyContract(st, fr, ct, c.Signature(), nil, append([]Val{recv}, args...), pos, iname)
 	}
 	if recv.Dyn != nil {
@@ -682,6 +712,9 @@ func (x *Exec) doInvoke(st *State, fr *frame, c *ssa.CallCommon, recv Val, args 
 		st.assumePC(not(or(conds...)))
 		if !x.feasible(st) {
 			return outs
+		}
+		if ct := e.ifaceContracts[iname]; ct != nil {
+			return append(outs, x.applyContract(st, fr, ct, c.Signature(), nil, append([]Val{recv}, args...), pos, iname)...)
 		}
 		e.notes["interface call "+iname+" on a dynamic type outside the analysed packages: arbitrary result, arbitrary heap effect"] = true
 		st.havocAll()
@@ -922,12 +955,20 @@ func (e *Engine) encodeAddr(s *State, a *Addr) string {
 		loc := s.newLoc("esc")
 		ty := s.cellTy[a.Cell]
 		cv := s.cells[a.Cell]
+		for _, gn := range e.zeroGhosts() {
+			g := e.ghosts[gn]
+			s.assume(eq(s.ghostRead(g, loc), e.zero(g.Ty)))
+		}
 		// mutexes of a newly allocated object are not held
 		if st, ok := ty.Underlying().(*types.Struct); ok {
 			for i := 0; i < st.NumFields(); i++ {
 				if typeKey(st.Field(i).Type()) == "sync.Mutex" {
 					e.needFaddr()
 					s.assume(not(s.ghostRead(s.ghost("held"), fmt.Sprintf("(faddr %s %d)", loc, i))))
+				}
+				if typeKey(st.Field(i).Type()) == "sync.Once" {
+					e.needFaddr()
+					s.assume(not(s.ghostRead(s.ghost("oncedone"), fmt.Sprintf("(faddr %s %d)", loc, i))))
 				}
 			}
 		}
@@ -1076,4 +1117,26 @@ func closureRunsHere(mc *ssa.MakeClosure) bool {
 		return false
 	}
 	return uses(mc, 0)
+}
+
+func (e *Engine) zeroGhosts() []string {
+	var ns []string
+	for n, g := range e.ghosts {
+		if g.Zero {
+			ns = append(ns, n)
+		}
+	}
+	sort.Strings(ns)
+	return ns
+}
+
+// hookMods: ghost ledgers assigned by the function's `at ... set` hooks belong to its frame.
+func (e *Engine) hookMods(fn *ssa.Function, ms *ModSet) {
+	if ct := e.contracts[e.shortName(fn)]; ct != nil {
+		for _, h := range ct.Ats {
+			if h.Kind == "set" {
+				ms.heaps["gh:"+h.Ghost] = true
+			}
+		}
+	}
 }
